@@ -503,6 +503,30 @@ theorem sameSite_spec (a b : Pos) (h : sameSite a b = true) :
   obtain ⟨m2, e2⟩ := frac_zero _ h2
   exact ⟨m0, m1, m2, e0, e1, e2⟩
 
+/-- **Extinction from the partner relation** (what `hasAllPairs_sound` delivers): if every atom has a partner with the same
+scattering factor at `p + t` modulo a lattice vector, and no two atoms share a site, the partner map is a permutation and
+`F(h) = 0` whenever `t·h ∉ ℤ`. -/
+theorem extinction_of_partners {ι : Type*} [Fintype ι] (w : ι → Idx → ℝ) (p : ι → Fin 3 → ℝ) (V : ℝ) (h : Idx) (t : Fin 3 → ℝ)
+    (hpart : ∀ j, ∃ j', w j' h = w j h ∧ ∃ m : Fin 3 → ℤ, ∀ a, p j' a = p j a + t a + (m a : ℝ))
+    (hdist : ∀ j j', (∃ m : Fin 3 → ℤ, ∀ a, p j a = p j' a + (m a : ℝ)) → j = j')
+    (hth : ¬ ∃ z : ℤ, dotp t h = z) :
+    SF w p V h = 0 := by
+  classical
+  choose σ hσw hσp using hpart
+  have hinj : Function.Injective σ := by
+    intro j j' hjj
+    obtain ⟨m, hm⟩ := hσp j
+    obtain ⟨m', hm'⟩ := hσp j'
+    apply hdist
+    refine ⟨fun a => m' a - m a, fun a => ?_⟩
+    have h1 := hm a
+    have h2 := hm' a
+    rw [hjj] at h1
+    push_cast
+    linarith
+  let e : Equiv.Perm ι := Equiv.ofBijective σ (Finite.injective_iff_bijective.mp hinj)
+  exact centering_extinction w p V h e t (fun j => hσp j) (fun j => hσw j) hth
+
 /-! ### non-vacuity -/
 example : (("A", [[(0 : ℚ), 0, 0], [0, (1 : ℚ) / 2, (1 : ℚ) / 2]]) : String × List (List ℚ)) ∈ centeringTranslations := by
   simp [centeringTranslations]
